@@ -240,6 +240,60 @@ class Ctx:
             out.extend(flatten_cond(t, pol))
         return out
 
+    def simplify_under(self, f, t, nd, extra=()):
+        """conditional expressions in t whose test is decided by the path conditions of nd are replaced by the arm taken"""
+        def norm(atom, pol):
+            if atom[0] == 'cmp' and atom[1] == 'is not':
+                return ('cmp', 'is', atom[2], atom[3]), not pol
+            if atom[0] == 'cmp' and atom[1] == '!=':
+                return ('cmp', '==', atom[2], atom[3]), not pol
+            return atom, pol
+        here = dict(norm(a, p) for a, p in list(self.conds(f, nd)) + list(extra))
+
+        def rec(x):
+            if not isinstance(x, tuple):
+                return x
+            if x and x[0] == 'ifexp' and len(x) == 4:
+                fl = flatten_cond(x[1], True)
+                if len(fl) == 1:
+                    a, p = norm(*fl[0])
+                    if a in here:
+                        return rec(x[2] if here[a] == p else x[3])
+            return tuple(rec(y) for y in x)
+        return rec(t)
+
+    def feasible_alternatives(self, f, t, nd, extra=()):
+        """definitions of the versioned symbol t that can be the one read at nd: a definition made under a test of
+        never-rebound parameters whose opposite holds at nd is left out.  [(Def, term)] or None"""
+        alts = f.alternatives(t)
+        if alts is None:
+            return None
+
+        def norm(atom, pol):
+            if atom[0] == 'cmp' and atom[1] == 'is not':
+                return ('cmp', 'is', atom[2], atom[3]), not pol
+            if atom[0] == 'cmp' and atom[1] == '!=':
+                return ('cmp', '==', atom[2], atom[3]), not pol
+            return atom, pol
+
+        def stable(atom):
+            return all(x[2] == 'P' for x in walk_term(atom) if x[0] == 'v')
+        here = {}
+        for a, p in list(self.conds(f, nd)) + list(extra):
+            a, p = norm(a, p)
+            if stable(a):
+                here[a] = p
+        out = []
+        for d, term in alts:
+            dead = False
+            for a, p in self.conds(f, f.nodes[d.node]):
+                a, p = norm(a, p)
+                if stable(a) and a in here and here[a] != p:
+                    dead = True
+            if not dead:
+                out.append((d, term))
+        return out
+
     # ------------------------------------------------------------------ loop paths
     def body_paths(self, f, header, limit=20000):
         """simple paths from loop header `header` through its body.
@@ -436,6 +490,8 @@ def path_decisions(f, path, exit_kind=None):
                 # body entry of a while carries (test, True); an `if` without else falls through on False
                 pol = False
             out.append((nd, pol))
+        elif exit_kind in ('back', 'fall') and nd.kind == 'test' and isinstance(nd.stmt, ast.If) and not nd.stmt.orelse:
+            out.append((nd, False))     # the path leaves through the test of an if without else: the test was false
         else:
             out.append((nd, None))
     return out
